@@ -287,6 +287,27 @@ pub fn gen_ramp(rng: &mut Rng, ct: u8, depth: u8) -> (Grid, GenInfo) {
     (Grid { w, h, ct, depth, palette: vec![], trns: None, samples }, GenInfo { class })
 }
 
+/// An indexed image in which one colour is isolated within its Adam7 pass - used only on the pass-1 lattice (x, y
+/// multiples of 8), or filling the odd rows (pass 7) and nothing else - so that, seen pass by pass, that colour has no
+/// neighbour of another colour: whatever orders a palette by which colours sit next to each other must not lose it when
+/// the image is laid out in passes.
+pub fn gen_pass_isolated(rng: &mut Rng) -> (Grid, GenInfo) {
+    let n = rng.range(3, 30) as usize;
+    let palette: Vec<[u8; 4]> = (0..n).map(|_| [rng.byte(), rng.byte(), rng.byte(), 255]).collect();
+    let (w, h) = (rng.range(9, 40) as u32, rng.range(9, 40) as u32);
+    let kind = rng.below(2);
+    let lonely = rng.below(n as u64) as u16;
+    let others: Vec<u16> = (0..n as u16).filter(|c| *c != lonely).collect();
+    let mut samples = Vec::with_capacity((w * h) as usize);
+    for y in 0..h {
+        for x in 0..w {
+            let isolated = if kind == 0 { x % 8 == 0 && y % 8 == 0 } else { y % 2 == 1 };
+            samples.push(if isolated { lonely } else { *rng.choose(&others) });
+        }
+    }
+    (Grid { w, h, ct: 3, depth: 8, palette, trns: None, samples }, GenInfo { class: format!("pass-isolated{} pal{} ", kind, n) })
+}
+
 /// A random legal image in oxipng layout
 pub fn gen_himg(rng: &mut Rng, max_dim: u32) -> (HImg, GenInfo) {
     if rng.chance(1, 50) {
